@@ -205,7 +205,7 @@ def report(ctx, res, write_ev=True):
     return 1 if new else 0
 
 
-def acquire_run_slot():
+def acquire_run_slot(tier='quick'):
     """Machine-wide semaphore: at most VERIF_SLOTS (default 2) vcheck runs at a time, so that the
     tier deadlines and the E3 watchdogs measure the check and not the neighbours (several checks are
     routinely run side by side while the machinery is being developed; each uses all 16 cores).
@@ -214,6 +214,8 @@ def acquire_run_slot():
     n = int(os.environ.get('VERIF_SLOTS', '2'))
     if n <= 0:
         return None
+    if tier == 'quick':
+        n += 1          # one extra slot that only quick-tier runs may take, so they do not starve behind 20-minute runs
     d = '/var/tmp/squid-verif-slots'
     try:
         os.makedirs(d, exist_ok=True)
@@ -261,7 +263,7 @@ def main(argv=None):
         seed = int(os.environ.get('VERIF_SEED', '0'))
     except ValueError:
         seed = 0
-    slot = acquire_run_slot()
+    slot = acquire_run_slot(tier if not replay_file else 'quick')
     ctx = Ctx(pid, tier, seed)
     try:
         mod = load_check(pid)
